@@ -117,18 +117,9 @@ impl<T: CoordNum> AffineTransform<T> {
         wf(r),
         // the documented matrix about the (converted) origin, whose defining property is that the origin is a fixed point
         mview(r).a == xfact.val() && mview(r).b == 0 && mview(r).d == 0 && mview(r).e == yfact.val(),
-        exists|o: Coord<T>| call_ensures(core::convert::Into::<Coord<T>>::into, (origin,), o) && #[trigger] m_apply(mview(r), cv(o)) == cv(o),
+        exists|o: Coord<T>| #[trigger] call_ensures(core::convert::Into::<Coord<T>>::into, (origin,), o) && m_apply(mview(r), cv(o)) == cv(o),
 //@entry
         proof { T::ax_obeys(); T::ax_ring(); }
-//@after 1 `let yoff = y0 - (y0 * yfact);`
-        proof {
-            assert(xfact.val() * x0.val() == x0.val() * xfact.val()) by (nonlinear_arith);
-            assert(yfact.val() * y0.val() == y0.val() * yfact.val()) by (nonlinear_arith);
-            lemma_mul01(0, y0.val()); lemma_mul01(0, x0.val());
-            let o = Coord { x: x0, y: y0 };
-            let m = M { a: xfact.val(), b: 0, xoff: xoff.val(), d: 0, e: yfact.val(), yoff: yoff.val() };
-            assert(m_apply(m, cv(o)) == cv(o));
-        }
 //@end
 
 //@fn geo/src/algorithm/affine_ops.rs | impl<T: CoordNum> AffineTransform<T> | a | id=C13.V.acc_a
@@ -195,18 +186,13 @@ impl<U: CoordFloat> AffineTransform<U> {
         wf(r),
         // rotation-shaped matrix [[c, -s], [s, c]] for WHATEVER (s, c) sin_cos returned, with the origin as a fixed point
         mview(r).a == mview(r).e && mview(r).b == -mview(r).d,
-        exists|o: Coord<U>| call_ensures(core::convert::Into::<Coord<U>>::into, (origin,), o) && #[trigger] m_apply(mview(r), cv(o)) == cv(o),
+        exists|o: Coord<U>| #[trigger] call_ensures(core::convert::Into::<Coord<U>>::into, (origin,), o) && m_apply(mview(r), cv(o)) == cv(o),
 //@entry
-        proof { U::ax_obeys(); U::ax_ring(); U::ax_neg(); }
-//@after 1 `let yoff = y0 - (x0 * sin_theta) - (y0 * cos_theta);`
         proof {
-            assert(cos_theta.val() * x0.val() == x0.val() * cos_theta.val()) by (nonlinear_arith);
-            assert(cos_theta.val() * y0.val() == y0.val() * cos_theta.val()) by (nonlinear_arith);
-            assert(sin_theta.val() * x0.val() == x0.val() * sin_theta.val()) by (nonlinear_arith);
-            assert((-sin_theta.val()) * y0.val() == -(y0.val() * sin_theta.val())) by (nonlinear_arith);
-            let o = Coord { x: x0, y: y0 };
-            let m = M { a: cos_theta.val(), b: -sin_theta.val(), xoff: xoff.val(), d: sin_theta.val(), e: cos_theta.val(), yoff: yoff.val() };
-            assert(m_apply(m, cv(o)) == cv(o));
+            U::ax_obeys(); U::ax_ring(); U::ax_neg();
+            // sign and order of integer products (anchor-free: stated for all operands)
+            assert forall|a: int, b: int| #[trigger] ((-a) * b) == -(a * b) by { assert((-a) * b == -(a * b)) by (nonlinear_arith); }
+            assert forall|a: int, b: int| #[trigger] (a * b) == b * a by { assert(a * b == b * a) by (nonlinear_arith); }
         }
 //@end
 }
